@@ -44,15 +44,27 @@ pub fn ptrace_case(regs: &libc::user_regs_struct, dregs: &[u64; 8], fs: &libc::u
     l
 }
 
+/// calls `f` with a reference to `v` placed at an address that is `off` (0 or 8) modulo 16: the result must not depend on
+/// where the caller happens to keep the register file
+fn placed<T, R>(v: T, off: usize, f: impl FnOnce(&T) -> R) -> R {
+    let al = std::mem::align_of::<T>();
+    let off = if al > 8 { 0 } else { off };
+    let mut store = vec![0u8; std::mem::size_of::<T>() + 48];
+    let base = (store.as_mut_ptr() as usize + 15) & !15;
+    let p = (base + off) as *mut T;
+    unsafe { std::ptr::write(p, v); let r = f(&*p); std::ptr::drop_in_place(p); r }
+}
+
 pub fn run_ucontext(a: &Args) {
     let mut rng = Rng::new(a.seed);
     let mut out = Out::new();
     for _ in 0..a.n {
         let cc = gen_crash_context(&mut rng, 1);
-        let mut cpu = RawContextCPU::default();
-        cc.fill_cpu_context(&mut cpu);
+        let case = ucontext_case(&cc);
+        let off = 8 * rng.below(2) as usize; out.count(&format!("placement.{off}_mod_16"));
+        let cpu = placed(cc, off, |c| { let mut cpu = RawContextCPU::default(); c.fill_cpu_context(&mut cpu); cpu });
         let mut res = Line::bare(); res.bytes(&ctx_to_bytes(cpu));
-        out.case(ucontext_case(&cc).s(), res.s(), true);
+        out.case(case.s(), res.s(), true);
     }
     out.finish(&a.out, "random ucontext / fpstate contents (boundary-biased 64-bit values) through the public CrashContext::fill_cpu_context, serialised with the image builder; all 1232 context bytes compared; every case is non-trivial; distinct by register file");
 }
@@ -74,10 +86,11 @@ pub fn run_ptrace(a: &Args) {
         for x in fpregs.xmm_space.iter_mut() { *x = rng.next() as u32; }
         let mut dregs = [0u64; 8]; for d in dregs.iter_mut() { *d = rng.interesting(64) as u64; }
         let info = ThreadInfo { stack_pointer: regs.rsp as usize, tgid: 1, ppid: 1, regs, fpregs, dregs };
-        let mut cpu = RawContextCPU::default();
-        info.fill_cpu_context(&mut cpu);
+        let case = ptrace_case(&info.regs, &info.dregs, &info.fpregs);
+        let off = 8 * rng.below(2) as usize; out.count(&format!("placement.{off}_mod_16"));
+        let cpu = placed(info, off, |i| { let mut cpu = RawContextCPU::default(); i.fill_cpu_context(&mut cpu); cpu });
         let mut res = Line::bare(); res.bytes(&ctx_to_bytes(cpu));
-        out.case(ptrace_case(&info.regs, &info.dregs, &info.fpregs).s(), res.s(), true);
+        out.case(case.s(), res.s(), true);
     }
     out.finish(&a.out, "random ptrace register files (user_regs_struct, debug registers, user_fpregs_struct) through the public ThreadInfo::fill_cpu_context; all 1232 context bytes compared; distinct by register file");
 }
